@@ -6,7 +6,7 @@
  *   gen <seedhex> <msghex|->
  *        -> R gen ok=<sign ret> v=<verify ret> PK <pk tokens> SIG <sig tokens>
  *   verify PK <pk tokens> SIG <sig tokens> MSG <msghex|->
- *        -> R v=<0|1> n=<chain length|-> ord=<6 bits|-> ker=<bit|-> taps=<c k t m h fired>- H=<hex|-> H2=<hex|-> jcom=<hex|-> jalt=<hex|-> jchall=<hex|-> jpk=<hex>
+ *        -> R v=<0|1> n=<chain length|-> ord=<6 bits|-> ker=<bit|-> taps=<c k t m h fired>- deg=<E_com has C = 0> H=<hex|-> H2=<hex|-> jcom=<hex|-> jalt=<hex|-> jchall=<hex|-> jpk=<hex>
  *   hints <Are> <Aim> <f>   -> R hints <h0> <h1>     (public canonical-basis hints of the curve with coefficient A)
  *   (with hook H3 present) trace=e4:<log2_of_e>,<e_half>,<row>,<max current>,<max strategy column>,<final current>;th:<n>,<slots used>,<max strategy index>
  * tokens
@@ -259,6 +259,8 @@ static void report(int v, const public_key_t *pk)
            tap.nH >= 1 ? "h" : "");
     printf(" H="); if (tap.nH >= 1) ibz_print_tok(&tap.H[0]); else printf("-");
     printf(" H2="); if (tap.nH >= 2) ibz_print_tok(&tap.H[1]); else printf("-");
+    /* degenerate "commitment curve": the record (A : C) the chain returned is not a curve (C = 0) */
+    printf(" deg=%s", tap.have_com ? (fp2_is_zero(&tap.Ecom.C) ? "1" : "0") : "-");
     print_j("jcom", &tap.Ecom, tap.have_com);
     print_j("jalt", &tap.Ealt, tap.have_alt);
     print_j("jchall", &tap.Echall, tap.have_chall);
